@@ -340,6 +340,7 @@ func runC09(c *core.Ctx) {
 	})
 	c.Exhaustive(fmt.Sprintf("all %d (signing, crypto) pairs over codes 0..20,255,256,65280,65534,65535 x 0..8,255,256,65280,65534,65535 through %d API paths", len(pairs), len(paths)))
 	c.Job("reused-inputs", c.N(400, 8000), func(i int, r *core.Rand) { c09ReusedInputs(c, r) })
+	c.Job("lifecycle", c.N(480, 9600), func(i int, r *core.Rand) { c09Lifecycle(c, i, r) })
 	c.Job("sampled-unknown", c.N(3000, 60000), func(i int, r *core.Rand) {
 		s, cr := r.Pick(65536), r.Pick(65536)
 		switch i % 3 {
@@ -502,4 +503,212 @@ func c09One(c *core.Ctx, paths []identPath, sig, cr int, r *core.Rand, class str
 		}
 	}
 	c.Sample(gen.Shape{"sig": sig, "crypto": cr, "paths": len(paths)})
+}
+
+// c09Lifecycle: identities are not only looked at when they are returned. A caller goes on to use
+// them — derives a Destination view of a RouterIdentity, blinds it, verifies the container it came
+// in (with every transient key type an offline block may carry), calls accessors — and every
+// identity obtained so far is examined again after each such step, through its accessors and
+// through its own serialisation read by the reference decoder: it must still not declare a
+// prohibited type. (An operation that "copies" an identity shallowly and then retypes the copy
+// retypes the original.)
+func c09Lifecycle(c *core.Ctx, i int, r *core.Rand) {
+	type heldT struct {
+		kac    *keys_and_cert.KeysAndCert
+		router bool
+		site   string
+		s, cr  int
+	}
+	var held []heldT
+	hold := func(k *keys_and_cert.KeysAndCert, router bool, site string) {
+		if s, cr, ok := typesOf(k); ok {
+			held = append(held, heldT{k, router, site, s, cr})
+		}
+	}
+	examine := func(after string, sh gen.Shape, in []byte) bool {
+		for _, h := range held {
+			ys, yc, ok := typesOf(h.kac)
+			if !ok {
+				continue
+			}
+			c.Eval(1)
+			// the same question put to the identity's own bytes
+			bs, bc := ys, yc
+			var b []byte
+			c.Call("c09/lifecycle/Bytes", in, func() { b, _ = h.kac.Bytes() })
+			if m, _, err := rm.DecodeKAC(b); err == nil {
+				bs, bc = m.Types()
+			}
+			for _, t := range [][2]int{{ys, yc}, {bs, bc}} {
+				bad := rm.ProhibitedInDestination(t[0], t[1])
+				what := "Destination"
+				if h.router {
+					bad, what = rm.ProhibitedInRouterIdentity(t[0], t[1]), "RouterIdentity"
+				}
+				if bad {
+					s2 := gen.Shape{"class": "lifecycle", "after": after, "sig": t[0], "crypto": t[1], "obtained_sig": h.s, "obtained_crypto": h.cr}
+					for k, v := range sh {
+						if _, dup := s2[k]; !dup {
+							s2[k] = v
+						}
+					}
+					c.Violate(h.site, "returned-identity-later-declares-prohibited-type", s2, in,
+						fmt.Sprintf("%s obtained from %s with types %d/%d declares %d/%d after %s", what, h.site, h.s, h.cr, t[0], t[1], after))
+					return false
+				}
+			}
+		}
+		c.Bucket("lifecycle/examined-after/" + after)
+		return true
+	}
+	sweep := func(v any, in []byte) {
+		c.Call("c09/lifecycle/accessors", in, func() { lib.Observe(v, lib.ObserveOpts{Depth: 1}) })
+	}
+	switch i % 4 {
+	case 0: // RouterIdentity -> Destination view -> blinding
+		key, _ := rm.NewSigKey(7, r)
+		k, sh := gen.KACOf(r, 7, []int{0, 4}[r.Pick(2)])
+		copy(k.Block[384-32:], key.Pub)
+		in := k.Encode()
+		var ri *router_identity.RouterIdentity
+		var err error
+		if panicked, _, _ := c.Call("router_identity.ReadRouterIdentity", in, func() { ri, _, err = router_identity.ReadRouterIdentity(in) }); panicked || err != nil || ri == nil {
+			return
+		}
+		hold(ri.KeysAndCert, true, "router_identity.ReadRouterIdentity")
+		// the same identity inside a RouterInfo
+		info, _ := gen.RouterInfo(r)
+		info.Ident = k
+		info.Sig = r.Bytes(64)
+		var pi router_info.RouterInfo
+		ib := info.Encode()
+		c.Call("router_info.ReadRouterInfo", ib, func() { pi, _, err = router_info.ReadRouterInfo(ib) })
+		if err == nil && pi.RouterIdentity() != nil {
+			hold(pi.RouterIdentity().KeysAndCert, true, "router_info.ReadRouterInfo")
+		}
+		if cri, ok, err := lib.BuildRouterIdentity(k, i/4%2); ok && err == nil && cri != nil {
+			hold(cri.KeysAndCert, true, "router_identity.NewRouterIdentity*")
+		}
+		n := len(held)
+		for hi := 0; hi < n; hi++ {
+			rid := &router_identity.RouterIdentity{KeysAndCert: held[hi].kac}
+			var view destination.Destination
+			c.Call("router_identity.RouterIdentity.AsDestination", in, func() { view = rid.AsDestination() })
+			if view.KeysAndCert == nil {
+				continue
+			}
+			hold(view.KeysAndCert, false, "router_identity.RouterIdentity.AsDestination")
+			if !examine("AsDestination", sh, in) {
+				return
+			}
+			var bd destination.Destination
+			c.Call("encrypted_leaseset.CreateBlindedDestination", in, func() {
+				bd, err = encrypted_leaseset.CreateBlindedDestination(view, r.Bytes(32), time.Unix(int64(1600000000+r.Pick(200000000)), 0))
+			})
+			if err == nil && bd.KeysAndCert != nil {
+				hold(bd.KeysAndCert, false, "encrypted_leaseset.CreateBlindedDestination")
+				c.Bucket("lifecycle/blinded")
+			}
+			if !examine("CreateBlindedDestination", sh, in) {
+				return
+			}
+		}
+		sweep(ri, in)
+		sweep(&pi, ib)
+		examine("accessor-sweep", sh, in)
+		c.Nontrivial([]byte("lifecycle-a"), in)
+	case 1, 2: // offline-signed LeaseSet2 / MetaLeaseSet, every transient type, then Verify()
+		dts := []int{7, 11, 0, 1, 2}
+		tts := []int{0, 1, 2, 7, 8, 11}
+		dt, tt := dts[(i/4)%len(dts)], tts[(i/20)%len(tts)]
+		offline := (i/120)%4 != 3
+		var sc signedCase
+		if i%4 == 1 {
+			sc = signedLeaseSet2(r, dt, offline, tt)
+		} else {
+			sc = signedMeta(r, dt, offline, tt)
+		}
+		in := sc.bytes
+		var container any
+		var dest *destination.Destination
+		var verify func() error
+		var err error
+		if i%4 == 1 {
+			var ls lease_set2.LeaseSet2
+			if panicked, _, _ := c.Call("lease_set2.ReadLeaseSet2", in, func() { ls, _, err = lease_set2.ReadLeaseSet2(in) }); panicked || err != nil {
+				c.Bucket("lifecycle/container-rejected")
+				return
+			}
+			d := ls.Destination()
+			dest, container, verify = &d, &ls, ls.Verify
+			hold(d.KeysAndCert, false, "lease_set2.ReadLeaseSet2")
+		} else {
+			var ls meta_leaseset.MetaLeaseSet
+			if panicked, _, _ := c.Call("meta_leaseset.ReadMetaLeaseSet", in, func() { ls, _, err = meta_leaseset.ReadMetaLeaseSet(in) }); panicked || err != nil {
+				c.Bucket("lifecycle/container-rejected")
+				return
+			}
+			d := ls.Destination()
+			dest, container, verify = &d, &ls, ls.Verify
+			hold(d.KeysAndCert, false, "meta_leaseset.ReadMetaLeaseSet")
+		}
+		_ = dest
+		if !examine("parse", sc.shape, in) {
+			return
+		}
+		var verr error
+		c.Call("Verify", in, func() { verr = verify() })
+		if verr == nil {
+			c.Bucket(fmt.Sprintf("lifecycle/verified/dest%d-transient%d-offline%v", dt, tt, offline))
+		} else {
+			c.Bucket("lifecycle/verify-failed")
+		}
+		if !examine("Verify", sc.shape, in) {
+			return
+		}
+		sweep(container, in)
+		if !examine("accessor-sweep", sc.shape, in) {
+			return
+		}
+		c.Call("Verify", in, func() { verify() })
+		examine("second-Verify", sc.shape, in)
+		c.Nontrivial([]byte("lifecycle-b"), in)
+	case 3: // legacy LeaseSet and RouterInfo: verify, sweep
+		dt := []int{7, 0, 1, 2, 11}[(i/4)%5]
+		if (i/20)%2 == 0 {
+			sc := signedLeaseSet(r, dt)
+			var ls lease_set.LeaseSet
+			var err error
+			if panicked, _, _ := c.Call("lease_set.ReadLeaseSet", sc.bytes, func() { ls, err = lease_set.ReadLeaseSet(sc.bytes) }); panicked || err != nil {
+				return
+			}
+			d := ls.Destination()
+			hold(d.KeysAndCert, false, "lease_set.ReadLeaseSet")
+			c.Call("Verify", sc.bytes, func() { ls.Verify() })
+			if !examine("Verify", sc.shape, sc.bytes) {
+				return
+			}
+			sweep(&ls, sc.bytes)
+			examine("accessor-sweep", sc.shape, sc.bytes)
+			c.Nontrivial([]byte("lifecycle-c"), sc.bytes)
+			return
+		}
+		if dt == 11 {
+			dt = 7
+		}
+		sc := signedRouterInfo(r, dt)
+		var pi router_info.RouterInfo
+		var err error
+		if panicked, _, _ := c.Call("router_info.ReadRouterInfo", sc.bytes, func() { pi, _, err = router_info.ReadRouterInfo(sc.bytes) }); panicked || err != nil || pi.RouterIdentity() == nil {
+			return
+		}
+		hold(pi.RouterIdentity().KeysAndCert, true, "router_info.ReadRouterInfo")
+		c.Call("VerifySignature", sc.bytes, func() { pi.VerifySignature() })
+		if !examine("VerifySignature", sc.shape, sc.bytes) {
+			return
+		}
+		sweep(&pi, sc.bytes)
+		examine("accessor-sweep", sc.shape, sc.bytes)
+		c.Nontrivial([]byte("lifecycle-d"), sc.bytes)
+	}
 }
